@@ -699,12 +699,22 @@ func (rn *run) runSig(i int, name string) {
 	}
 	e := newEnv(pkgTypes[s.Typ], uint64(c.Seed)*4000003+uint64(i), s.Gate)
 	rev, image := revName(r)
+	// a third of the sources leave out the registry host: the default registry applies, for the
+	// image that is pulled as well as for the image whose signature is verified
+	noHost := r.IntN(3) == 0
+	if noHost {
+		image = strings.TrimPrefix(image, "reg.example/")
+	}
 	bi := buildImage(r, s.Layout, s.Content.stream, decoy.stream)
 	e.fetch.put(refString(image), bi.img)
 	e.createRevision(revOpts{Name: rev, Image: image, SkipDep: boolPtr("false")})
 	if s.Mode == "controller" {
 		if s.Config != "none" {
-			if err := e.user.Create(context.Background(), verificationConfig(s.Config)); err != nil {
+			ic := verificationConfig(s.Config)
+			if noHost && s.Config != "nomatch" {
+				ic.Spec.MatchImages[0].Prefix = "org/"
+			}
+			if err := e.user.Create(context.Background(), ic); err != nil {
 				panic(err)
 			}
 		}
@@ -741,6 +751,14 @@ func (rn *run) runSig(i int, name string) {
 			steps = append(steps, map[string]any{"step": k, "controller": "signature", "err": fmt.Sprint(err), "verified_after": v, "validator_calls": e.val.calls})
 			c.Count("signature_reconciles", 1)
 			c.Count("verified_after_sig_"+orAbsent(v), 1)
+			e.val.mu.Lock()
+			vrefs := append([]string(nil), e.val.refs...)
+			e.val.mu.Unlock()
+			for _, vr := range vrefs {
+				if vr != refName(image) {
+					c.Violate("sig-verified-another-image-than-the-one-installed", name, fmt.Sprintf("the signature of %s was checked, the revision is installed from %s (source %q)", vr, refName(image), image), wit())
+				}
+			}
 			if v == "True" && !passable {
 				c.Violate("sig-verified-true-without-passing:"+s.Config+":"+s.Validator, name, "the signature controller marked the revision Verified=True although verification cannot have passed", wit())
 			}
